@@ -68,6 +68,19 @@ theorem numWords_pos (N k : Nat) (hN : 0 < N) : 0 < numWords N k := by
   · rw [h0] at h; omega
   · exact h0
 
+/-- `bitset<0>`: no storage word at all -/
+theorem numWords_zero (k : Nat) : numWords 0 k = 0 := by
+  have hw := two_pow_pos' k
+  unfold numWords
+  exact Nat.div_eq_of_lt (by omega)
+
+/-- padding exists only for a non-empty bitset (`bitset<0>` has no word, hence no padding) -/
+theorem pos_of_hasPadding {N k : Nat} (h : hasPadding N k = true) : 0 < N := by
+  rcases Nat.eq_zero_or_pos N with h0 | h0
+  · subst h0
+    simp [hasPadding, padding, numWords_zero] at h
+  · exact h0
+
 theorem wordIndex_lt {N k i : Nat} (h : i < N) : i / 2 ^ k < numWords N k := by
   rw [Nat.div_lt_iff_lt_mul (two_pow_pos' k)]
   exact Nat.lt_of_lt_of_le h (le_numWords_mul N k)
